@@ -49,6 +49,7 @@ type FuncContract struct {
 	Unclaimed    map[string]string
 	GuardLock    string   // "guarded <lock>: A.B, C.D": calls of the named methods happen only while <lock> is held
 	GuardNames   []string
+	GuardFields  []string // "guardedfields <lock>: f1, f2": these fields of the lock's owner are read or written only while <lock> is held
 	Panics       []*Clause // "panics when cond": reaching a panic is allowed only under cond ... informational
 	NoPanic      []*Clause
 	Modifies     []string
@@ -108,7 +109,7 @@ type Contracts struct {
 }
 
 var clauseKeywords = map[string]bool{
-	"func": true, "lemma": true, "spec": true, "returns": true, "requires": true, "ensures": true, "exit": true, "unclaimed": true, "guarded": true, "census": true,
+	"func": true, "lemma": true, "spec": true, "returns": true, "requires": true, "ensures": true, "exit": true, "unclaimed": true, "guarded": true, "census": true, "guardedfields": true,
 	"invariant": true, "decreases": true, "modifies": true, "pure": true, "loop": true, "callback": true,
 	"panics": true, "forkjoin": true, "trusted": true, "nopanic": true, "axiom": true, "props": true,
 	"package": true, "ghost": true, "using": true, "opaque": true, "footprint": true,
@@ -309,6 +310,18 @@ func (cs *Contracts) loadFile(path, pkg string) error {
 			curF.GuardLock = strings.TrimSpace(lock)
 			for _, n := range strings.FieldsFunc(names, func(r rune) bool { return r == ',' || r == ' ' }) {
 				curF.GuardNames = append(curF.GuardNames, n)
+			}
+		case "guardedfields":
+			if curF == nil {
+				return fail("guardedfields outside func")
+			}
+			lock, names, ok := strings.Cut(rc.text, ":")
+			if !ok {
+				return fail("guardedfields: expected <lock>: field names")
+			}
+			curF.GuardLock = strings.TrimSpace(lock)
+			for _, n := range strings.FieldsFunc(names, func(r rune) bool { return r == ',' || r == ' ' }) {
+				curF.GuardFields = append(curF.GuardFields, n)
 			}
 		case "census":
 			// "census <package path prefix> [C13]: A.B, C.D" — every call of a named method inside those packages
